@@ -196,6 +196,12 @@ class ConcurrentExecutor(ABC, Generic[CallableType, ResultType]):
             "▶️ Executing concurrent operation, items: %d", len(self.executables)
         )
 
+        if not self.executables:
+            # Nothing to run: no task would ever set the completion event (and
+            # ThreadPoolExecutor rejects max_workers=0), so return the empty result.
+            self.executables_with_state = []
+            return self._create_result()
+
         max_workers = self.max_concurrency or len(self.executables)
 
         self.executables_with_state = [
